@@ -254,6 +254,13 @@ def scenario_steps(job, variant, steps, via_json=False):
                 e = d.engine()
                 e.reload(logs)
                 coq_steps.append("SReload")
+            elif st[0] == "reload_same":
+                # a prefix of its own logs reloaded into the SAME, already used engine: for the model this is rollback(k)
+                logs = list(e.operation_logs())[:st[1] + 1]
+                if via_json:
+                    logs = json_roundtrip_logs(logs)
+                e.reload(logs)
+                coq_steps.append("SRollback %d" % st[1])
         final = list(e.operation_logs())
     expected = "[" + ";\n ".join(rec.obs_log(l) for l in final) + "]"
     txt = (HEADER + rec.tables() +
@@ -514,6 +521,13 @@ def scenario_relay(job, variant, steps, via_json=True):
                 e = simenv.make_engine(job, variant)
                 e.reload(logs)
                 attach(e)
+            elif st[0] == "reload_same":
+                logs = list(e.operation_logs())[:st[1] + 1]
+                if via_json:
+                    logs = json_roundtrip_logs(logs)
+                e.reload(logs)
+                attach_prev = [p for l in e.operation_logs() for p in l.playlogs]
+                state["prev"] = list(attach_prev[-1].events) if attach_prev else []
         final = list(e.operation_logs())
     finally:
         eng_mod.play = orig_play
